@@ -343,8 +343,19 @@ func (c *Chain) Deliver(ctx sdk.Context, msg sdk.Msg) (post sdk.Context, write f
 		return
 	}
 	res.Msg = m2
-	if err := m2.ValidateBasic(); err != nil {
-		res.Err, res.Stage = err.Error(), "validate"
+	// baseapp.runTx calls ValidateBasic under its recover(): a panic is a failed tx
+	var verr error
+	func() {
+		defer func() {
+			if r := recover(); r != nil {
+				res.Panic = true
+				verr = fmt.Errorf("panic: %v", r)
+			}
+		}()
+		verr = m2.ValidateBasic()
+	}()
+	if verr != nil {
+		res.Err, res.Stage = verr.Error(), "validate"
 		return
 	}
 	h := c.App.MsgServiceRouter().Handler(m2)
